@@ -267,7 +267,7 @@ fn inline_helpers(orig: &SourceFile, extra: &[SourceFile], func: &str, closure: 
                     let h = &v[0];
                     if h.sig.generics.params.iter().any(|g| !matches!(g, syn::GenericParam::Lifetime(_))) || h.sig.asyncness.is_some() || h.sig.unsafety.is_some() { return false; }
                     // (a method of another type is reached through a receiver, which gets a name of its own: see `self__` below)
-                    if h.impl_ty.is_some() && h.impl_ty != fty && !h.sig.inputs.iter().any(|a| matches!(a, syn::FnArg::Receiver(r) if r.reference.is_some())) { return false; }
+                    if h.impl_ty.is_some() && h.impl_ty != fty && !h.sig.inputs.iter().any(|a| matches!(a, syn::FnArg::Receiver(_))) { return false; }
                     if !h.sig.inputs.iter().all(|a| match a { syn::FnArg::Receiver(_) => true, syn::FnArg::Typed(pt) => matches!(&*pt.pat, syn::Pat::Ident(pi) if pi.by_ref.is_none() && pi.subpat.is_none()) }) { return false; }
                     let mut u = Unfit(false);
                     u.visit_block(&h.block);
@@ -299,9 +299,30 @@ fn inline_helpers(orig: &SourceFile, extra: &[SourceFile], func: &str, closure: 
         let mut self_alias = false;
         if let Some((rs, re)) = recv_span {
             let recv_kind = h.sig.inputs.iter().find_map(|a| match a { syn::FnArg::Receiver(r) => Some((r.reference.is_some(), r.mutability.is_some())), _ => None });
+            // which types of these files are `Copy` (a by-value `self` of such a type is a copy of the receiver)
+            let copy_types: Vec<String> = {
+                fn scan(items: &[syn::Item], out: &mut Vec<String>) {
+                    for it in items {
+                        let (attrs, name): (&[syn::Attribute], String) = match it {
+                            syn::Item::Enum(e) => (&e.attrs, e.ident.to_string()),
+                            syn::Item::Struct(st) => (&st.attrs, st.ident.to_string()),
+                            _ => continue,
+                        };
+                        if attrs.iter().any(|a| a.path().is_ident("derive") && a.meta.to_token_stream().to_string().split(|c: char| !c.is_alphanumeric()).any(|w| w == "Copy")) { out.push(name); }
+                    }
+                }
+                let mut v = vec![];
+                scan(&src.ast.items, &mut v);
+                for ef in extra { scan(&ef.ast.items, &mut v); }
+                v
+            };
             match (recv_kind, &h.impl_ty) {
                 (Some((true, m)), Some(ty)) if !h.block.to_token_stream().to_string().contains("Self") => {
                     t.push_str(&format!("let self__ : &{}{} = &{}{}; ", if m { "mut " } else { "" }, ty, if m { "mut " } else { "" }, norm_ws(&src.text[rs..re])));
+                    self_alias = true;
+                }
+                (Some((false, _)), Some(ty)) if copy_types.contains(ty) && !h.block.to_token_stream().to_string().contains("Self") => {
+                    t.push_str(&format!("let self__ : {} = {}; ", ty, norm_ws(&src.text[rs..re])));
                     self_alias = true;
                 }
                 _ => break,
